@@ -242,6 +242,17 @@ struct MathExplorer
     template <class T>
     void run_fn(const MFun& f);
     template <class T>
+    void run_fn_space(const MFun& f, const Space<T>& S, const std::vector<MImpl>& impls, const int norders);
+    std::set<std::string> full_archs; // --full-archs: where the complete 2^32 sweeps of the thorough tier run
+    std::vector<MImpl> only_full(const std::vector<MImpl>& v)
+    {
+        std::vector<MImpl> r;
+        for (auto& im : v)
+            if (full_archs.count(mods[(size_t)im.module].arch))
+                r.push_back(im);
+        return r;
+    }
+    template <class T>
     void run_all();
     template <class T>
     void run_special();
@@ -262,14 +273,33 @@ template <class T>
 void MathExplorer::run_fn(const MFun& f)
 {
     constexpr int elem = std::is_same<T, float>::value ? XV_F32 : XV_F64;
-    using Tr = fp_traits<T>;
     const char* hprop = mode_scalar ? "C17" : "M";
     auto impls = impls_of(f.impl, elem, hprop);
     if (impls.empty())
         return;
     if (!only.empty() && !only.count(f.name))
         return;
-    Space<T> S = f.arity == 1 ? unary_space<T>(thorough, seed) : binary_space<T>(f.name, thorough, seed);
+    // The complete float32 sweep (2^32 arguments) of the thorough tier runs in neighbour order on the
+    // architectures named by --full-archs (one per distinct set of floating-point kernels); every architecture
+    // still gets the lattice space in both stream orders. Without --full-archs everything runs everywhere.
+    const bool big = thorough && std::is_same<T, float>::value && f.arity == 1 && !full_archs.empty();
+    if (big)
+    {
+        run_fn_space<T>(f, unary_space<T>(false, seed), impls, 2);
+        const bool loops = (std::is_same<T, float>::value ? f.tick32 : f.tick64) > 0;
+        run_fn_space<T>(f, unary_space<T>(true, seed), only_full(impls), (mode_ticks && loops) ? 2 : 1);
+    }
+    else
+        run_fn_space<T>(f, f.arity == 1 ? unary_space<T>(thorough, seed) : binary_space<T>(f.name, thorough, seed), impls, 2);
+}
+
+template <class T>
+void MathExplorer::run_fn_space(const MFun& f, const Space<T>& S, const std::vector<MImpl>& impls, const int norders)
+{
+    constexpr int elem = std::is_same<T, float>::value ? XV_F32 : XV_F64;
+    using Tr = fp_traits<T>;
+    if (impls.empty())
+        return;
     const uint64_t N = S.size();
     const size_t BLK = 1u << 14;
     const uint64_t nblocks = (N + BLK - 1) / BLK;
@@ -277,7 +307,13 @@ void MathExplorer::run_fn(const MFun& f)
     if (!stats.count(fkey))
         stats[fkey].reset(new FnStats);
     FnStats& ST = *stats[fkey];
-    notes.push_back(fkey + ": " + S.label + " (" + std::to_string(N) + " points) x {neighbour, strided} order");
+    {
+        std::string on;
+        if (impls.size() < mods.size())
+            for (auto& im : impls)
+                on += (on.empty() ? "" : " ") + mods[(size_t)im.module].arch;
+        notes.push_back(fkey + ": " + S.label + " (" + std::to_string(N) + " points) x " + (norders == 2 ? "{neighbour, strided} order" : "neighbour order") + (on.empty() ? "" : " on " + on));
+    }
     const unsigned tickbound = std::is_same<T, float>::value ? f.tick32 : f.tick64;
     std::vector<std::atomic<uint64_t>> unk(impls.size());
     for (auto& u : unk)
@@ -288,7 +324,6 @@ void MathExplorer::run_fn(const MFun& f)
         Buf a, b, out0, out1, ref, cls, ticks, flo, fhi;
     };
     std::vector<Scratch> scr((size_t)nthreads);
-    const int norders = 2;
     std::vector<std::atomic<char>> kf_seen(math_findings().size() * impls.size());
     for (auto& k : kf_seen)
         k = 0;
@@ -827,7 +862,12 @@ void MathExplorer::run_special()
     }
     states += cases;
     // ---- (b) relations over the unary argument space ----
-    Space<T> S = unary_space<T>(thorough, seed);
+    // (thorough, float32: the lattice on every architecture, then all 2^32 arguments on the --full-archs subset)
+    std::atomic<uint64_t> rjudged { 0 };
+    const bool big = thorough && std::is_same<T, float>::value && !full_archs.empty();
+    for (int pass = 0; pass < (big ? 2 : 1); ++pass)
+    {
+    Space<T> S = unary_space<T>(big ? pass == 1 : thorough, seed);
     const uint64_t N = S.size();
     const size_t BLK = 1u << 14;
     const uint64_t nblocks = (N + BLK - 1) / BLK;
@@ -847,14 +887,18 @@ void MathExplorer::run_special()
     for (auto& f : mfuns())
         if (f.arity == 1 && (f.odd || f.even))
             rels.push_back({ std::string(f.name) + (f.odd ? ":odd" : ":even"), f.impl, 0, f.impl, 0, f.odd ? 1 : 2 });
-    notes.push_back(std::string("relations<") + tname + ">: " + S.label + " (" + std::to_string(N) + " points)");
-    std::atomic<uint64_t> rjudged { 0 };
+    notes.push_back(std::string("relations<") + tname + ">: " + S.label + " (" + std::to_string(N) + " points)" + (big && pass == 1 ? " on the --full-archs subset" : ""));
     for (auto& R : rels)
     {
         if (!only.empty() && !only.count(R.name) && !only.count(R.opA))
             continue;
         auto IA = impls_of(R.opA, elem, "M");
         auto IB = impls_of(R.opB, elem, "M");
+        if (big && pass == 1)
+        {
+            IA = only_full(IA);
+            IB = only_full(IB);
+        }
         if (IA.empty() || IA.size() != IB.size())
             continue;
         std::vector<std::atomic<uint64_t>> unk(IA.size());
@@ -931,6 +975,7 @@ void MathExplorer::run_special()
                 rjudged += jd;
             } });
         states += N;
+    }
     }
     if (!stats.count("special<" + tname + ">"))
         stats["special<" + tname + ">"].reset(new FnStats);
@@ -1509,6 +1554,9 @@ int main(int argc, char** argv)
         else if (a == "--only")
             for (auto& s : split(next(), ','))
                 E.only.insert(s);
+        else if (a == "--full-archs")
+            for (auto& s : split(next(), ','))
+                E.full_archs.insert(s);
         else if (a == "--replay")
             replay = true;
         else if (a == "--op")
